@@ -23,6 +23,7 @@
 import asyncio
 import errno
 import socket
+import weakref
 from types import TracebackType
 from typing import TYPE_CHECKING, AnyStr, Callable, Generic, List, Optional
 from typing import Sequence, Set, Tuple, Type, Union
@@ -252,11 +253,17 @@ class SSHForwardListener(SSHListener):
         self._servers = servers
         self._listen_key = listen_key
         self._listen_port = listen_port
+        self._close_handler: Optional[Callable[[], None]] = None
 
     def get_port(self) -> int:
         """Return the port number being listened on"""
 
         return self._listen_port
+
+    def set_close_handler(self, handler: Callable[[], None]) -> None:
+        """Set a function to call when this listener is closed"""
+
+        self._close_handler = handler
 
     def close(self) -> None:
         """Close this listener"""
@@ -266,6 +273,9 @@ class SSHForwardListener(SSHListener):
 
             for server in self._servers:
                 server.close()
+
+            if self._close_handler:
+                self._close_handler()
 
             self._conn = None
 
@@ -402,10 +412,27 @@ async def create_socks_listener(conn: 'SSHConnection',
                                 listen_port: int) -> SSHForwardListener:
     """Create a SOCKS listener to forward traffic over SSH"""
 
+    forwarders: 'weakref.WeakSet[SSHSOCKSForwarder]' = weakref.WeakSet()
+
     def protocol_factory() -> asyncio.BaseProtocol:
         """Start a port forwarder for each new SOCKS connection"""
 
-        return SSHSOCKSForwarder(conn, coro)
+        forwarder = SSHSOCKSForwarder(conn, coro)
+        forwarders.add(forwarder)
+        return forwarder
 
-    return await create_tcp_local_listener(conn, loop, protocol_factory,
-                                           listen_host, listen_port)
+    def close_pending() -> None:
+        """Close connections which have not sent a complete request yet"""
+
+        for forwarder in list(forwarders):
+            if forwarder.is_request_pending():
+                forwarder.close()
+
+    listener = await create_tcp_local_listener(conn, loop, protocol_factory,
+                                               listen_host, listen_port)
+
+    # A connection which is still sending its SOCKS request isn't known to
+    # anyone but this listener. Don't leave it open when the listener goes.
+    listener.set_close_handler(close_pending)
+
+    return listener
